@@ -560,7 +560,44 @@ def _bounded_styles(ctx):
         if (n & 0xFF) == 0 and ctx.out_of_time():
             complete = False
             break
+    # one Style object handed over, changed through its setters, and handed over again: the second rendering shows the
+    # style as it is now (a style is converted every time it is used)
+    for way in ("per-call", "add_style"):
+        ctx.case([way, "changed-style-object"], nontrivial=True)
+        for sig, what in changed_style_case(way):
+            rec.fail(sig, what, {"way": way, "changed_style": True})
     ctx.done(exhaustive=complete and not ctx.quick, note=rec.note())
+
+
+def changed_style_case(way):
+    from clikit.api.formatter import Style
+    from clikit.formatter import AnsiFormatter
+
+    try:
+        st = Style("zz9").fg("red")
+        f1 = AnsiFormatter(forced=True)
+        if way == "per-call":
+            first = f1.format("text", st)
+        else:
+            f1.add_style(st)
+            first = f1.format("<zz9>text</zz9>")
+        st.fg("blue").bold()
+        f2 = AnsiFormatter(forced=True)
+        if way == "per-call":
+            second = f2.format("text", st)
+        else:
+            f2.add_style(st)
+            second = f2.format("<zz9>text</zz9>")
+    except Exception as e:
+        return [("style_codes|changed-style-object|raises", "%s: %r" % (way, e))]
+    fails = []
+    if "31" not in first.split("m")[0] or "34" in first.split("m")[0]:
+        fails.append(("style_codes|changed-style-object|first-rendering", "%s: red style rendered as %r" % (way, first)))
+    codes = second.split("m")[0].replace(ESC + "[", "").split(";")
+    if sorted(codes) != ["1", "34"]:
+        fails.append(("style_codes|changed-style-object|stale-codes", "%s: after fg('blue').bold() the style renders as %r (codes %r), "
+                      "expected 34;1" % (way, second, codes)))
+    return fails
 
 
 # =============================================================================== (c) line-writing methods
@@ -656,7 +693,8 @@ SCOPE_KINDS = ("io.indent", "io.increment_indent", "output.indent", "output.incr
 PROBE_TEXT = "<info>ab</info>\n\n  cd"  # a tagged line, an empty line, a line that starts with blanks of its own
 PROBE_PLAIN_LINES = ("ab", "", "  cd")
 # lines are separated by "\n" only: a trailing newline is a trailing empty line, other "line break" characters are text
-EXTRA_PROBES = ("ab\n", "a\rb\n\n", "x\x0cy\u2028z\x0b")
+# (a line made of blanks or a tab only is not empty: it is indented like any other)
+EXTRA_PROBES = ("ab\n", "a\rb\n\n", "x\x0cy\u2028z\x0b", "p\n \nq", "\t")
 
 
 class _Boom(Exception):
@@ -791,7 +829,7 @@ def _bounded_indent(ctx):
               "nestings of depth 2..4 with widths %r; each x {ANSI forced, plain}; at every level before / inside / after the "
               "inner scope / after exit: IO.write_line, IO.write, Output.write_line, IO.error_line, IO.error and a freshly "
               "created section write a 3-line text (tagged line, empty line, line with own leading blanks), IO.write_line and "
-              "IO.error also 3 texts with a trailing newline / \\r, \\x0b, \\x0c, \\u2028 inside, and every line is "
+              "IO.error also 5 texts with a trailing newline / a blank-only or tab-only line / \\r, \\x0b, \\x0c, \\u2028 inside, and every line is "
               "compared with the model indentation of its stream"
               % (max_exh, exh_widths, len(exh_level), n_sample, smp_widths))
     rec = _Recorder(ctx)
@@ -843,6 +881,8 @@ def replay_bounded(check_id, failure):
     elif check_id.endswith(".style_codes"):
         if sig == "style_codes|pastel-table":
             fails = [(sig, repr(x)) for x in pastel_table_mismatch()]
+        elif w.get("changed_style"):
+            fails = changed_style_case(w["way"])
         else:
             fails = style_case(w["way"], w["fg"], w["bg"], tuple(w["attrs"]))
     elif check_id.endswith(".line_newline"):
